@@ -12,3 +12,6 @@ func (s *Stream) verifEv(ev string, kv ...any) {}
 
 // VerifFP is only meaningful with -tags verif.
 func VerifFP(b []byte) string { return "" }
+
+// VerifPos identifies the stream object and its current event count (0, 0 without the tag).
+func (s *Stream) VerifPos() (uint64, uint64) { return 0, 0 }
